@@ -8,6 +8,7 @@ import (
 	"fmt"
 	"go/ast"
 	"go/types"
+	"strings"
 
 	"golang.org/x/tools/go/ssa"
 )
@@ -247,7 +248,14 @@ func (m *Machine) debugNames(fn *ssa.Function) map[string][]ssa.Value {
 
 // ---------- havoc ----------
 
+type cellHavoc struct {
+	arg        ssa.Value // the caller's argument bound to the callee parameter the location is relative to
+	fields     []string  // field names below it
+	mapContent bool      // mapof(...): the contents of the map held there, not the cell
+}
+
 type modset struct {
+	cells    []cellHavoc
 	roots    map[ssa.Value]map[string]bool // root value -> field paths ("" = whole object)
 	ghosts   map[string]bool
 	allGhost bool
@@ -310,11 +318,25 @@ func (m *Machine) loopModset(fn *ssa.Function, lp *Loop) *modset {
 					fc = m.contracts.Funcs[funcKey(callee)]
 				}
 				if fc != nil && fc.HasAssigns {
+					callee := com.StaticCallee()
 					for _, a := range fc.Assigns {
 						if len(a) > 0 && a[0] == '@' {
 							ms.ghosts[a] = true
-						} else {
-							// receiver field: recv.field
+							continue
+						}
+						loc, isMap := a, false
+						if strings.HasPrefix(a, "mapof(") && strings.HasSuffix(a, ")") {
+							loc, isMap = a[len("mapof("):len(a)-1], true
+						}
+						parts := strings.Split(loc, ".")
+						found := false
+						for pi, p := range callee.Params {
+							if p.Name() == parts[0] && pi < len(com.Args) {
+								ms.cells = append(ms.cells, cellHavoc{arg: com.Args[pi], fields: parts[1:], mapContent: isMap})
+								found = true
+							}
+						}
+						if !found {
 							ms.allMemForArgs(m, com, add)
 						}
 					}
@@ -398,20 +420,24 @@ func (m *Machine) havocLoop(c *Config, lp *Loop, phis []*ssa.Phi, entryVals []Va
 				st.mem[cellKey{obj, ""}] = m.syms.fresh(obj.Name+".arr", ArraySort(SBV64, obj.Elem))
 				continue
 			}
-			// delete matching cells (prefix match) so that they are re-materialised fresh
+			// delete matching cells (prefix match) and mark them: they are re-materialised fresh, not with their entry value
 			for k := range st.mem {
-				if k.obj == obj && (p == "" || k.path == p || (len(k.path) > len(p) && k.path[:len(p)] == p)) {
+				if k.obj == obj && !strings.HasPrefix(k.path, "#") && (p == "" || k.path == p || (len(k.path) > len(p) && k.path[:len(p)] == p)) {
 					delete(st.mem, k)
 				}
 			}
+			st.markHavocked(obj, p)
 			// mark as havocked: a fresh value must not fall back to the global initial value
 			if _, isGlobal := m.globalMem[cellKey{obj, p}]; isGlobal {
 				st.mem[cellKey{obj, p}] = m.freshLike(m.globalMem[cellKey{obj, p}], obj.Name)
 			}
 		}
 	}
+	for _, ch := range ms.cells {
+		m.havocCellPath(c, ch)
+	}
 	for name, v := range st.ghost {
-		if ghostImmutable[name] {
+		if ghostImmutable[name] || strings.HasPrefix(name, "@map:") || strings.HasPrefix(name, "@mapfresh:") || strings.HasPrefix(name, "@ch:") {
 			continue
 		}
 		if ms.allGhost || ms.ghosts[name] {
@@ -484,4 +510,70 @@ var readonlyArgCallees = map[string]roCallee{
 	"strings.Compare":           {},
 	"strings.Contains":          {},
 	"error.Error":               {},
+}
+
+// havocCellPath havocs one location a contracted callee may assign, resolved against the caller's argument.
+func (m *Machine) havocCellPath(c *Config, ch cellHavoc) {
+	st := c.st
+	val, ok := c.top.regs[ch.arg]
+	if !ok {
+		return
+	}
+	p, ok := val.(*PtrV)
+	if !ok || p.Obj == nil {
+		if sl, ok := val.(*SliceV); ok && len(ch.fields) == 0 && !ch.mapContent {
+			st.mem[cellKey{sl.Obj, ""}] = m.syms.fresh(sl.Obj.Name+".arr", ArraySort(SBV64, sl.Obj.Elem))
+		}
+		if t, ok := val.(Term); ok && t.Sort == "MapRef" && ch.mapContent && len(ch.fields) == 0 {
+			m.havocMapContent(st, t)
+		}
+		return
+	}
+	path := append([]int{}, p.Path...)
+	t := p.Obj.Typ
+	for _, i := range p.Path {
+		t = t.Underlying().(*types.Struct).Field(i).Type()
+	}
+	for _, name := range ch.fields {
+		stt, ok := t.Underlying().(*types.Struct)
+		if !ok {
+			return
+		}
+		found := false
+		for i := 0; i < stt.NumFields(); i++ {
+			if stt.Field(i).Name() == name {
+				path = append(path, i)
+				t = stt.Field(i).Type()
+				found = true
+				break
+			}
+		}
+		if !found {
+			return
+		}
+	}
+	if ch.mapContent {
+		if ref, ok := m.load(st, &PtrV{Obj: p.Obj, Path: path}, t).(Term); ok && ref.Sort == "MapRef" {
+			m.havocMapContent(st, ref)
+		}
+		return
+	}
+	pk := pathKey(path)
+	for k := range st.mem {
+		if k.obj == p.Obj && (k.path == pk || strings.HasPrefix(k.path, pk+".")) {
+			delete(st.mem, k)
+		}
+	}
+	st.markHavocked(p.Obj, pk)
+}
+
+func (m *Machine) havocMapContent(st *State, ref Term) {
+	if mc, ok := st.ghost["@map:"+ref.S].(*mapContent); ok {
+		n := &mapContent{ksort: mc.ksort, vsort: mc.vsort,
+			has: m.syms.fresh("map.has", mc.has.Sort), get: m.syms.fresh("map.get", mc.get.Sort), size: m.syms.fresh("map.size", SBV64)}
+		st.assume(And(BVSge(n.size, BVLitI(0, 64)), BVSle(n.size, BVLitI(1<<40, 64))))
+		st.ghost["@map:"+ref.S] = n
+		return
+	}
+	st.ghost["@mapfresh:"+ref.S] = TTrue
 }
